@@ -617,6 +617,8 @@ def check(run, prog):
     rule_last_element(run, prog)
     from .c02_condition_scan import rule_condition_scan
     rule_condition_scan(run, prog)           # R-2.7
+    from .snippet_rules import rule_continuation_indent
+    rule_continuation_indent(run, prog)      # R-2.8
 
 
 def _ancestors(n):
